@@ -9,7 +9,7 @@ from vlib import Broken, log
 def check_c16(ctx):
     vlib.build_worker(ctx)
     rep = vlib.Report(ctx)
-    maxlen = 5 if ctx.tier == 'thorough' else 4
+    maxlen = 4 if ctx.tier == 'thorough' else 3
     hists = ctx.path('hists.ndjson')
     cfg = ('CONSTANTS\nMaxLen = %d\nOutFile = "%s"\nSPECIFICATION Spec\nINVARIANTS C16_PkgCache C16_NoLeftover\nPROPERTY C16_Stateless\n'
            % (maxlen, hists))
@@ -34,11 +34,12 @@ def check_c16(ctx):
     return rep.finish(
         'model_checking',
         'Sessions.tla: machine over (world: document -> version, package cache, per-call cache clone); TLC checks C16_PkgCache, '
-        'C16_NoLeftover and the action property C16_Stateless on every behaviour of <= %d steps over 7 calls (ExpandSpec on two roots '
+        'C16_NoLeftover and the action property C16_Stateless on every behaviour of <= %d steps over 9 calls (ExpandSpec on two roots '
         'that share one location, ExpandSchemaWithBasePath, ResolveRefWithBase, ExpandSchema against two in-memory roots that share '
-        'the pseudo root, expansion of the built-in meta-schemas) and 3 world changes, and exports every such history with the '
+        'the pseudo root, a call whose options have no RelativeBase, a schema that refers to whole built-in meta-schema documents, expansion '
+        'of the built-in meta-schemas) and 3 world changes, and exports every such history with the '
         'expected version vector of each call. Each worker process replays its histories back to back (package state persists), '
-        'all calls without a caller cache; per call: the result must show the current version of every document it reads and its '
+        'all calls without a caller cache and with ONE options value per kind reused by every call of the process; per call: the result must show the current version of every document it reads and its '
         'own root, the caller\'s options are unchanged, the package cache holds exactly the two built-ins (verif accessor), and the '
         'built-in meta-schemas resolve without any loader call to their first-seen content. distinct_nontrivial = distinct '
         'histories containing a world change.' % maxlen,
